@@ -233,7 +233,11 @@ fn fmt_source_code_trace(
     printer
         .new_line()
         .with_margin_content(format!["{}", s.line_number])
-        .with_content(highlight_substring(&s.line_content, s.index, s.value.len()))
+        .with_content(highlight_substring(
+            &s.line_content,
+            s.index,
+            s.value.chars().count(),
+        ))
         .print(f)?;
     printer
         .new_line()
@@ -248,14 +252,27 @@ fn fmt_source_code_trace(
 }
 
 fn highlight_substring(line: &str, start: usize, length: usize) -> String {
-    if line.len() < start + length {
+    // `start` and `length` count characters; convert them to byte offsets so that lines
+    // with multi-byte characters are not sliced in the middle of a character.
+    let mut offsets = line
+        .char_indices()
+        .map(|(i, _)| i)
+        .chain(std::iter::once(line.len()));
+    let Some(start) = offsets.nth(start) else {
         return line.into();
-    }
+    };
+    let end = match length {
+        0 => Some(start),
+        _ => offsets.nth(length - 1),
+    };
+    let Some(end) = end else {
+        return line.into();
+    };
     format![
         "{}{}{}",
         &line[..start],
-        (&line[start..start + length]).bold(),
-        line[start + length..].trim_end(),
+        (&line[start..end]).bold(),
+        line[end..].trim_end(),
     ]
 }
 
